@@ -98,7 +98,12 @@ def pipe(binary_args, lines, timeout=600, env=None):
     return _pipe1(binary_args, lines, timeout, env)
 
 
-STALL = 300      # seconds without a new answer line before the implementation harness counts as hung on the next case
+# seconds without a new answer line before the implementation harness counts as hung on the next case (a case takes
+# milliseconds; the largest fixture about a second)
+STALL = int(os.environ.get("VERIF_STALL", "60"))
+# sources (hex tokens) on which the implementation harness died or hung once in this run: every later stage answers them
+# with the synthetic panic line at once instead of waiting for the same death again
+KILLERS = set()
 
 
 def _run_once(binary_args, lines, timeout, env, stall=None):
@@ -177,6 +182,14 @@ def _pipe1(binary_args, lines, timeout=600, env=None):
     case kills it (abort on allocation failure, stack overflow, a hang) the killer is the first unanswered line: it gets
     a synthetic panic answer and the rest is run in a fresh process."""
     recover = os.path.basename(binary_args[0]) == "tyv" and len(binary_args) >= 2
+    if recover and KILLERS and binary_args[1] in ("fmt", "full", "oracle", "range"):
+        idx = [i for i, l in enumerate(lines) if any(f in KILLERS for f in l.split())]
+        if idx:
+            keep = [l for i, l in enumerate(lines) if i not in set(idx)]
+            ans = _pipe1(binary_args, keep, timeout, env) if keep else []
+            it = iter(ans)
+            bad = set(idx)
+            return [(_died_line(binary_args, l, "died or hung earlier in this run") if i in bad else next(it)) for i, l in enumerate(lines)]
     out = []
     rest = list(lines)
     deaths = 0
@@ -188,7 +201,11 @@ def _pipe1(binary_args, lines, timeout=600, env=None):
         if not recover or len(ans) >= len(rest) or deaths >= 50:
             raise RuntimeError("%s failed rc=%s: %s" % (binary_args, rc, err))
         why = ("hung (no answer for %d s)" % STALL) if rc is None else ("rc=%d %s" % (rc, err.strip().split("\n")[0][:200]))
-        synth = _died_line(binary_args, rest[len(ans)], why)
+        killer = rest[len(ans)]
+        fields = killer.split()
+        if fields:
+            KILLERS.add(max(fields, key=len))
+        synth = _died_line(binary_args, killer, why)
         if synth is None:
             raise RuntimeError("%s failed rc=%s: %s" % (binary_args, rc, err))
         out.extend(ans)
